@@ -457,6 +457,7 @@ pub fn monitored_loan(acc: &mut Acc, wd: &mut VaultWorld, user: usize, v: usize,
     let what = format!("loan user{user} vault{v} amount={amount} {label}");
     wd.log(what.clone());
     let router_pre: Vec<u128> = (0..nv).map(|i| wd.vaults[i].asset.balance(&wd.app, &wd.vrouter)).collect();
+    let collector_pre: Vec<u128> = (0..nv).map(|i| wd.vaults[i].asset.balance(&wd.app, &wd.collector)).collect();
     let quote = wd.quote(v, amount).ok();
     let user_pre = wd.vaults[v].asset.balance(&wd.app, &usr);
     let via_router = matches!(how, How::Router(_));
@@ -505,7 +506,18 @@ pub fn monitored_loan(acc: &mut Acc, wd: &mut VaultWorld, user: usize, v: usize,
                 // ledger model
                 wd.charged[i] += sum_p;
                 wd.burned[i] += sum_b;
-                wd.sent[i] += facts.collected[i];
+                // what a collection inside the transaction reports must be what the collector really received
+                // (two vaults never share an asset in these worlds, so the collector's delta is attributable)
+                let received = wd.vaults[i].asset.balance(&wd.app, &wd.collector).wrapping_sub(collector_pre[i]);
+                if (0..nv).filter(|j| wd.vaults[*j].asset == wd.vaults[i].asset).count() == 1 {
+                    acc.count("check.A2.vault.collection-inside-tx");
+                    if received != facts.collected[i] {
+                        acc.violation("C07", "A2/vault/collected-amount-reported!=received-by-collector", vdetail(wd, i, json!({"reported": facts.collected[i].to_string(), "received": received.to_string(), "step": what})));
+                    }
+                    wd.sent[i] += received;
+                } else {
+                    wd.sent[i] += facts.collected[i];
+                }
                 if !loans_i.is_empty() {
                     acc.count("check.L1.vault-gain");
                     // Δbal + W + C - Dep >= Σ(p+f)
@@ -582,6 +594,8 @@ pub enum Pre {
 
 #[derive(Clone, Debug, PartialEq)]
 pub enum Rep {
+    /// the quote minus the protocol + flash-loan fees of every same-vault loan nested two or more levels below
+    ShortByDeepFees,
     Exact,
     Minus1,
     Plus,
@@ -671,6 +685,8 @@ pub fn special_scripts() -> Vec<Sym> {
         for p2 in [Pre::Deposit, Pre::Withdraw, Pre::Collect] {
             out.push(Sym { pre: nested(exact.clone()), pre_swallow: false, repay_first: false, rep: rep.clone(), pre2: Some(Box::new(p2)) });
         }
+        // L0[ L1[L2] ] with the outermost repayment short by exactly L2's fees
+        out.push(Sym { pre: nested(Sym { pre: nested(exact.clone()), pre_swallow: false, repay_first: false, rep: Rep::Exact, pre2: None }), pre_swallow: false, repay_first: false, rep: Rep::ShortByDeepFees, pre2: None });
         // owner-borrower: switch loans off, then deposit
         for sw in [false, true] {
             out.push(Sym { pre: Pre::OwnerDisableLoans, pre_swallow: sw, repay_first: false, rep: rep.clone(), pre2: Some(Box::new(Pre::Deposit)) });
@@ -708,6 +724,11 @@ pub fn scripts_of_depth(d: u32) -> Vec<Sym> {
 
 /// bind a symbolic script to concrete addresses / amounts for a loan of `loan` on vault `v`
 pub fn bind(wd: &VaultWorld, v: usize, loan: u128, s: &Sym, plus_k: u128) -> Vec<Step> {
+    bind_out(wd, v, loan, s, plus_k, &vec![0u128; wd.vaults.len()])
+}
+
+/// `outst[i]`: what enclosing loans have currently taken out of vault i (not counting this loan)
+fn bind_out(wd: &VaultWorld, v: usize, loan: u128, s: &Sym, plus_k: u128, outst: &Vec<u128>) -> Vec<Step> {
     let h = &wd.vaults[v];
     let vault = h.addr.to_string();
     let asset = h.asset.info();
@@ -717,6 +738,28 @@ pub fn bind(wd: &VaultWorld, v: usize, loan: u128, s: &Sym, plus_k: u128) -> Vec
         Rep::Plus => RepayMode::Plus(Uint128::new(plus_k)),
         Rep::Nothing => RepayMode::Nothing,
         Rep::PrincipalOnly => RepayMode::PrincipalOnly,
+        Rep::ShortByDeepFees => {
+            // walk down the chain of same-vault nested loans, reproducing the amounts bind() will give them
+            fn deep_fees(wd: &VaultWorld, v: usize, outer_loan: u128, s: &Sym, level: u32, out_v: u128) -> u128 {
+                let mut total = 0u128;
+                for p in [Some(&s.pre), s.pre2.as_deref()].into_iter().flatten() {
+                    if let Pre::Nested { other_vault: false, frac, inner } = p {
+                        let tb = wd.vaults[v].asset.balance(&wd.app, &wd.vaults[v].addr);
+                        let avail = tb.saturating_sub(out_v).saturating_sub(outer_loan);
+                        let amt = if *frac == 1 { avail } else { (avail / 2).max(1) };
+                        if level >= 1 {
+                            if let Ok(q) = wd.quote(v, amt) {
+                                total += q.protocol_fee.u128() + q.flash_loan_fee.u128();
+                            }
+                        }
+                        total += deep_fees(wd, v, amt, inner, level + 1, out_v + outer_loan);
+                    }
+                }
+                total
+            }
+            let short = deep_fees(wd, v, loan, s, 0, outst[v]);
+            if short == 0 { RepayMode::Minus1 } else { RepayMode::ShortBy(Uint128::new(short)) }
+        }
     };
     let repay = Step { act: Act::Repay { vault: vault.clone(), asset: asset.clone(), loan: Uint128::new(loan), mode }, swallow: false };
     let act_of = |p: &Pre| -> Option<Act> {
@@ -735,13 +778,15 @@ pub fn bind(wd: &VaultWorld, v: usize, loan: u128, s: &Sym, plus_k: u128) -> Vec
             Pre::Nested { other_vault, frac, inner } => {
                 let tv = if *other_vault { 1 - v } else { v };
                 let tb = wd.vaults[tv].asset.balance(&wd.app, &wd.vaults[tv].addr);
-                // the inner loan can take what is left in the target vault
-                let avail = if tv == v { tb.saturating_sub(loan) } else { tb };
+                // the inner loan can take what is left in the target vault (enclosing loans are still out)
+                let avail = tb.saturating_sub(outst[tv]).saturating_sub(if tv == v { loan } else { 0 });
                 let amt = match frac {
                     1 => avail,
                     _ => (avail / 2).max(1),
                 };
-                let inner_script = bind(wd, tv, amt, inner, plus_k);
+                let mut o2 = outst.clone();
+                o2[v] += loan;
+                let inner_script = bind_out(wd, tv, amt, inner, plus_k, &o2);
                 Some(Act::Loan { vault: wd.vaults[tv].addr.to_string(), amount: Uint128::new(amt), script: inner_script })
             }
         }
@@ -885,7 +930,7 @@ pub fn seeded_world(fees: [[u128; 3]; 2], liq: [u128; 2]) -> VaultWorld {
 
 pub fn gen_script(r: &mut Rng, depth_left: u32) -> Sym {
     let rep = r.pick(&REPS).clone();
-    let rep = if r.chance(1, 2) { Rep::Exact } else { rep };
+    let rep = if r.chance(1, 2) { Rep::Exact } else if r.chance(1, 4) { Rep::ShortByDeepFees } else { rep };
     let (pre, rf) = match r.below(12) {
         0 | 1 | 2 | 3 => (Pre::None, false),
         4 => (Pre::Deposit, r.chance(1, 3)),
